@@ -76,11 +76,12 @@ def shrink(plugin, ctx0, failure, budget=200):
     if not hasattr(plugin, "shrink_candidates"): return failure
     best = failure
     improved = True
-    while improved and budget > 0:
+    t_end = time.time() + float(os.environ.get("VERIF_SHRINK_SECONDS", "90"))      # a replay is needed, a minimal one is a convenience
+    while improved and budget > 0 and time.time() < t_end:
         improved = False
         for cand in plugin.shrink_candidates(best["case"]):
             budget -= 1
-            if budget <= 0: break
+            if budget <= 0 or time.time() >= t_end: break
             sub = Ctx(ctx0.id, ctx0.tier, ctx0.seed, quiet=True)
             sub.harness, sub.lpconvert = ctx0.harness, ctx0.lpconvert
             try:
